@@ -348,3 +348,29 @@ SPECS["C11"] = {
     "assumptions": ["pre-emptions only at sites the discovery pass reports", "sequential consistency"],
     "outside": ["16 workers", "races inside fmt/logger internals", "calls to shared global functions from sinks"],
 }
+
+_C15 = ["interpreter/common.go", "interpreter/c15.go"]
+SPECS["C15"] = {
+    "explanation": "Resumability: a program goroutine with a breakpoint and a driver goroutine polling Status() and issuing Continue; happens-before pass finds the "
+                   "unsynchronised cells of the suspend/continue hand-shake, pass 2 pre-empts there with symbolic scheduling decisions; a quiescent state with the continue "
+                   "executed and the thread still waiting is the lost wake-up. Transparency: four programs (assignments, function call, loop, try/except/finally) run with a "
+                   "symbolic breakpoint set and a symbolic sequence of resume/stepin/stepover/stepout commands; result, log and final variables must equal the undebugged run.",
+    "level_text": "bounded: resumability for 2 programs/breakpoints with <= P pre-emptions; transparency for 4 programs x all breakpoint subsets x all command sequences up to 6 (deterministic schedule)",
+    "level_note": "trusts go/ssa, gosym scheduler/HB pass, encoding/json executed natively on concrete data, z3",
+    "harnesses": [
+        {"name": "H2-resume-top", "pkg": "interpreter", "files": _C15, "fn": "VerifC15Resume",
+         "what": "breakpoint on line 2 of a 3-line program, one continue", "reach": ["quiescent", "finished"],
+         "quick": {"params": {"PROG": 0, "LINE": 2, "P": 2, "CONTS": 1}, "unwind": 60, "wall_s": 900},
+         "thorough": {"params": {"PROG": 0, "LINE": 2, "P": 3, "CONTS": 1}, "unwind": 60, "wall_s": 3000}},
+        {"name": "H2-resume-in-call", "pkg": "interpreter", "files": _C15, "fn": "VerifC15Resume",
+         "what": "breakpoint inside a function body, one continue", "reach": ["quiescent", "finished"],
+         "quick": {"params": {"PROG": 1, "LINE": 2, "P": 2, "CONTS": 1}, "unwind": 60, "wall_s": 900},
+         "thorough": {"params": {"PROG": 1, "LINE": 2, "P": 3, "CONTS": 1}, "unwind": 60, "wall_s": 3000}},
+        {"name": "H1-transparent", "pkg": "interpreter", "files": _C15, "fn": "VerifC15Transparent",
+         "what": "4 programs x breakpoint subsets x command sequences", "reach": ["finished"],
+         "quick": {"params": {"CMDS": 4}, "unwind": 60, "wall_s": 900},
+         "thorough": {"params": {"CMDS": 8}, "unwind": 60, "wall_s": 3000}},
+    ],
+    "assumptions": ["pre-emptions only at discovered racy sites", "deterministic schedule in the transparency harness"],
+    "outside": ["telnet debug server and CLI", "sinks on several workers under debugging", "breakonstart/breakonerror flags"],
+}
